@@ -100,6 +100,8 @@ type Interp struct {
 	inputs          []*Input
 	inputSeq        map[string]int
 	globals         map[*ssa.Global]*Cell
+	stdInited       map[*ssa.Package]bool
+	runningInit     *ssa.Function
 	inited          map[*ssa.Package]bool
 	initing         bool
 	allocs          []allocRec
@@ -420,6 +422,7 @@ func (in *Interp) Explore(fn *ssa.Function) {
 		in.inputSeq = map[string]int{}
 		in.allocs = nil
 		in.globals = map[*ssa.Global]*Cell{}
+		in.stdInited = map[*ssa.Package]bool{}
 		in.inited = map[*ssa.Package]bool{}
 		in.side = map[*Cell]interface{}{}
 		in.knownTag = ""
@@ -778,6 +781,17 @@ func sentinelType(pkg *types.Package, name string) types.Type {
 	return t
 }
 
+func (in *Interp) stdInitOnDemand(p *ssa.Package) bool {
+	if p == nil || in.stdInited[p] {
+		return false
+	}
+	switch p.Pkg.Path() {
+	case "unicode/utf8", "net/url", "strings", "bytes", "sort", "slices":
+		return true
+	}
+	return false
+}
+
 func (in *Interp) global(g *ssa.Global) *Cell {
 	c, ok := in.globals[g]
 	if !ok {
@@ -787,6 +801,18 @@ func (in *Interp) global(g *ssa.Global) *Cell {
 			if types.Identical(et, in.errType) {
 				// opaque distinct stdlib sentinel error (io.EOF, context.Canceled, ...)
 				c.v = &IfaceV{typ: sentinelType(g.Pkg.Pkg, g.Name()), val: &PtrV{cell: &Cell{&ErrObj{format: g.Pkg.Pkg.Path() + "." + g.Name()}}}}
+			} else if in.stdInitOnDemand(g.Pkg) {
+				// the tables of a library package executed from its own SSA (utf8.first,
+				// ...) are filled by running that package's init when first touched
+				in.globals[g] = c
+				in.stdInited[g.Pkg] = true
+				if f := g.Pkg.Func("init"); f != nil {
+					prev := in.runningInit
+					in.runningInit = f
+					in.call(f, nil)
+					in.runningInit = prev
+				}
+				return in.globals[g]
 			}
 		}
 		in.globals[g] = c
